@@ -347,6 +347,24 @@ impl Prop for PostfilterEngine {
     }
     fn check(&self, c: &Self::Case) -> Result<Report, Failure> {
         let mut rep = super::c01::Synthesis.check(c)?;
+        // beta is the CALLER's setting, not the voice's: a condition on which it was set before the
+        // voice set is (re)loaded keeps it (as it keeps speed and volume), whatever options the
+        // voice's header carries (GAMMA=0 is written explicitly by a third of the generated voices)
+        {
+            let (mut e, _) = crate::engine_case::build_engine(&c.base.voice)?;
+            e.condition.set_beta(c.base.cond.beta);
+            let voices = e.voices.clone();
+            if e.condition.load_model(&voices).is_err() {
+                fail!("load-model", "Condition::load_model failed on the engine's own voices");
+            }
+            crate::ensure!(e.condition.get_beta().to_bits() == c.base.cond.beta.to_bits(), "postfilter-engine", "beta {} set before Condition::load_model reads back as {} afterwards", c.base.cond.beta, e.condition.get_beta());
+            let mut prepared = jbonsai::Condition::default();
+            prepared.set_beta(c.base.cond.beta);
+            if prepared.load_model(&voices).is_err() {
+                fail!("load-model", "Condition::load_model failed on a valid voice set");
+            }
+            crate::ensure!(prepared.get_beta().to_bits() == c.base.cond.beta.to_bits(), "postfilter-engine", "beta {} set on a fresh Condition before load_model reads back as {}", c.base.cond.beta, prepared.get_beta());
+        }
         rep.class(format!("beta:{}", if c.base.cond.beta < 0.01 { "<0.01" } else if c.base.cond.beta < 0.1 { "0.01-0.1" } else { ">=0.1" }));
         Ok(rep)
     }
